@@ -1,6 +1,7 @@
 import ColoVerif.Proofs.Expand
 import ColoVerif.Proofs.ExpandF
 import ColoVerif.Proofs.ExpandFBound
+import ColoVerif.Proofs.ExpandFAccum
 import ColoVerif.Model.LegacyExpandF
 /-
 C18 — cell expansion respects density caps and never touches fixed cells.
@@ -724,6 +725,104 @@ theorem byFactorF_utilisation_partial_any_width (c c' : Circuit) (efs : List Rat
         · omega
       exact ExpandF.applyFactors_area_le_any c.cells _ hsz
         (fun e he => le_trans (by decide +kernel : (1 / 2 : Rat) ≤ ExpandF.minFactor) (hge e he)) hl
+
+/-- Accumulation error of `expandedArea += (double)e * (double)area(i)` (lower side, the one the cap needs):
+for non-negative sizes and factors at least 1/2 (every accepted factor is at least `0.999f`) the accumulated
+`double` is at least the exact sum `Σ eᵢ·areaᵢ` times `(1−2^-53)^(4n)` — four roundings per cell — and it is
+0 or at least 1/4 (never subnormal). -/
+theorem byFactorF_expandedArea_error (cells : List Cell) (efs : List Rat) (hsz : NonnegSizes cells)
+    (he : ∀ e ∈ efs, 1 / 2 ≤ e) :
+    expandedArea cells efs * (1 - (2 : Rat) ^ (-53 : Int)) ^ (4 * cells.length) ≤
+      ExpandF.expandedArea 0 cells efs ∧
+    (ExpandF.expandedArea 0 cells efs = 0 ∨ 1 / 4 ≤ ExpandF.expandedArea 0 cells efs) :=
+  ExpandF.expandedArea_lower cells efs hsz he
+
+/-- **The by-factor cap with rounding, branch without ratio adjustment** (`expandedDensity ≤ maxDensity` as
+computed): for every accepted factor vector, non-negative sizes of any width, positive areas, `rowArea ≤ 2^63`,
+either nothing changes or
+
+  `area after · (1−2^-53)^(4n+1)  ≤  (1+2^-24)² · (1+2^-53) · maxDensity · rowArea`      (`n` = number of cells)
+
+— the `double` path (`4n` roundings of the accumulation, one of the quotient, one of `(double)rowArea`) and the
+`float` path (two roundings per cell) chained.  MISSING for `byFactorF_utilisation_full_statement`: the branch
+in which the factors are scaled by `ratio`. -/
+theorem byFactorF_cap_unadjusted (c c' : Circuit) (efs : List Rat) (maxD margin ret : Rat)
+    (h : ExpandF.expandCellsByFactor c efs maxD margin = some (c', ret)) (hsz : NonnegSizes c.cells)
+    (hA : 0 < movableArea c.cells) (hR : 0 < ExpandF.rowPlacementArea c margin)
+    (hR63 : ExpandF.isI64 (ExpandF.rowPlacementArea c margin) = true)
+    (hun : ¬ ExpandF.expandedDensity c efs margin > maxD) :
+    c' = c ∨
+    (movableArea c'.cells : Rat) * (1 - (2 : Rat) ^ (-53 : Int)) ^ (4 * c.cells.length + 1) ≤
+      (1 + (2 : Rat) ^ (-24 : Int)) ^ 2 * (1 + (2 : Rat) ^ (-53 : Int)) * maxD *
+        (ExpandF.rowPlacementArea c margin : Rat) := by
+  unfold ExpandF.expandCellsByFactor at h
+  split at h
+  · simp at h
+  · rename_i hrej
+    simp only [ExpandF.factorsRejected, Bool.or_eq_true, decide_eq_true_eq, List.any_eq_true, not_or,
+      not_exists, not_and, ne_eq, not_not, not_lt] at hrej
+    obtain ⟨hlen, hmin⟩ := hrej
+    simp only [Option.some.injEq] at h
+    unfold ExpandF.byFactorWith at h
+    split at h
+    · obtain ⟨rfl, _⟩ := Prod.mk.inj h; exact Or.inl rfl
+    · rename_i hn
+      obtain ⟨rfl, _⟩ := Prod.mk.inj h
+      right
+      have hhalf : ∀ e ∈ efs, (1 : Rat) / 2 ≤ e := fun e he =>
+        le_trans (by decide +kernel : (1 / 2 : Rat) ≤ ExpandF.minFactor) (hmin e he)
+      have hd : ExpandF.densityOf (movableArea c.cells) (ExpandF.rowPlacementArea c margin) < maxD := by
+        unfold ExpandF.noopOf at hn
+        exact not_le.mp (fun hh => hn (Or.inr (Or.inr hh)))
+      have hd0 := ExpandF.densityOf_nonneg (le_of_lt hA) (le_of_lt hR)
+      have hmaxD : 0 ≤ maxD := by linarith
+      have hed : ExpandF.expandedDensityOf (ExpandF.expandedArea 0 c.cells efs)
+          (ExpandF.rowPlacementArea c margin) ≤ maxD := not_lt.mp hun
+      have heff : ExpandF.effectiveOf efs maxD
+          (ExpandF.densityOf (movableArea c.cells) (ExpandF.rowPlacementArea c margin))
+          (ExpandF.expandedDensityOf (ExpandF.expandedArea 0 c.cells efs)
+            (ExpandF.rowPlacementArea c margin)) = efs := by
+        unfold ExpandF.effectiveOf; rw [if_neg (not_lt.mpr hed)]
+      simp only [heff]
+      have h1 := ExpandF.applyFactors_area_le_any c.cells efs hsz hhalf (by omega)
+      obtain ⟨h2, hE⟩ := ExpandF.expandedArea_lower c.cells efs hsz hhalf
+      have h3 := ExpandF.expandedDensityOf_lower _ _ hE hR (ExpandF.isI64_abs hR63)
+      obtain ⟨b1, _, b3⟩ := ExpandF.dR_bounds _ hR (ExpandF.isI64_abs hR63)
+      have hu := F64.z2_pos (-53)
+      have hu1 := ExpandF.u53_lt_one
+      have hε := F64.z2_pos (-24)
+      have hk : (0 : Rat) ≤ (1 + (2 : Rat) ^ (-24 : Int)) ^ 2 := sq_nonneg _
+      have hP : (0 : Rat) ≤ (1 - (2 : Rat) ^ (-53 : Int)) ^ (4 * c.cells.length) :=
+        pow_nonneg (by linarith) _
+      rw [pow_succ]
+      generalize (1 - (2 : Rat) ^ (-53 : Int)) ^ (4 * c.cells.length) = P at *
+      generalize ExpandF.expandedArea 0 c.cells efs = E at *
+      generalize ExpandF.expandedDensityOf E (ExpandF.rowPlacementArea c margin) = ed at *
+      generalize ExpandF.d (ExpandF.rowPlacementArea c margin) = dR at *
+      generalize (ExpandF.rowPlacementArea c margin : Rat) = R at *
+      generalize (movableArea (ExpandF.applyFactors c.cells efs) : Rat) = area' at *
+      generalize expandedArea c.cells efs = S at *
+      generalize (1 + (2 : Rat) ^ (-24 : Int)) ^ 2 = k at *
+      generalize (2 : Rat) ^ (-53 : Int) = u at *
+      have hr : 0 ≤ 1 - u := by linarith
+      have s1 : area' * P * (1 - u) ≤ k * S * P * (1 - u) :=
+        mul_le_mul_of_nonneg_right (mul_le_mul_of_nonneg_right h1 hP) hr
+      have s2 : k * (S * P) * (1 - u) ≤ k * E * (1 - u) :=
+        mul_le_mul_of_nonneg_right (mul_le_mul_of_nonneg_left h2 hk) hr
+      have s3 : k * (E * (1 - u)) ≤ k * (ed * dR) := mul_le_mul_of_nonneg_left h3 hk
+      have s4 : k * (ed * dR) ≤ k * (maxD * dR) :=
+        mul_le_mul_of_nonneg_left (mul_le_mul_of_nonneg_right hed (by linarith)) hk
+      have s5 : k * (maxD * dR) ≤ k * (maxD * (R * (1 + u))) :=
+        mul_le_mul_of_nonneg_left (mul_le_mul_of_nonneg_left b3 hmaxD) hk
+      have e1 : k * S * P * (1 - u) = k * (S * P) * (1 - u) := by ring
+      have e2 : k * E * (1 - u) = k * (E * (1 - u)) := by ring
+      have e3 : k * (maxD * (R * (1 + u))) = k * (1 + u) * maxD * R := by ring
+      linarith
+-- non-vacuity of `byFactorF_cap_unadjusted`: the witness with maxDensity 1 is expanded (10 -> 11) without adjustment
+example : ExpandF.isI64 (ExpandF.rowPlacementArea witness 0) = true ∧
+    ¬ ExpandF.expandedDensity witness [19 / 16] 0 > 1 ∧
+    ((ExpandF.expandCellsByFactor witness [19 / 16] 1 0).map fun r => r.1.cells.map (·.w)) = some [11] := by
+  decide +kernel
 
 example : NonnegSizes witness.cells ∧ (∀ cl ∈ witness.cells, cl.fixed = false → cl.w ≤ 2 ^ 24) ∧
     ¬ ExpandF.noopOf (movableArea witness.cells) (ExpandF.rowPlacementArea witness 0) (85 / 128) ∧
